@@ -290,7 +290,16 @@ def r3(ctx):
             newgt = u(gc.args[4]) if len(gc.args) >= 5 else None
             oldgt = u(gc.args[3]) if len(gc.args) >= 5 else None
             stored = u(s.value)
-            ok = newgt is not None and newgt in stored and oldgt == "gt_type" and u(gc.args[0]) == "sample" and u(gc.args[1]) == "chromosome"
+            # the sample named in the entry is the sample whose call is stored to: the loop variable that subscripts record.samples
+            lp_ = s.stmt
+            while lp_ is not None and not isinstance(lp_, ast.For):
+                lp_ = getattr(lp_, "parent", None)
+            loopvar = u(lp_.target) if lp_ is not None else None
+            calldef = util.single_def(w.node, u(s.target.value)) if isinstance(s.target.value, ast.Name) else None
+            same_sample = loopvar is not None and u(gc.args[0]) == loopvar and calldef is not None and u(calldef) == "record.samples[%s]" % loopvar
+            ok = newgt is not None and newgt in stored and oldgt == "gt_type" and same_sample and u(gc.args[1]) == "chromosome"
+            if not same_sample:
+                detail = " (entry names sample `%s`, the store goes to record.samples[%s])" % (u(gc.args[0]), loopvar)
             detail = " (old=%s new=%s stored=%s)" % (oldgt, newgt, stored)
         ctx.ob(w.qual, "gt-change-listed:%s" % u(s.target), ok and same_block, w.loc(s.stmt), "the GT store is guarded by `new != old` and paired with one GenotypeChange(sample, chromosome, variant, old, new) entry%s" % detail if ok and same_block else "a GT store is not paired with exactly one GenotypeChange entry under the `!=` guard%s" % detail)
     appends_all = [c for c in ctx.prog.calls_in(w.node) if isinstance(c.func, ast.Attribute) and c.func.attr == "append" and u(c.func.value) == "genotype_changes"]
@@ -383,7 +392,8 @@ def r4(ctx):
     # decoding: father = value % 2, mother = value // 2
     names = ["transmitted_hap_father1", "transmitted_hap_father2", "transmitted_hap_mother1", "transmitted_hap_mother2"]
     exprs = [u(x) for x in e.args[2:6]]
-    ok = len(exprs) == 4 and exprs[0].endswith("% 2") and exprs[1].endswith("% 2") and exprs[2].endswith("// 2") and exprs[3].endswith("// 2")
+    tvn = "block_transmission_vector"
+    ok = exprs == ["%s[i - 1] %% 2" % tvn, "%s[i] %% 2" % tvn, "%s[i - 1] // 2" % tvn, "%s[i] // 2" % tvn]
     ctx.ob(fr.qual, "father-bit-low-mother-bit-high", ok, fr.loc(e), "father haplotype = value % 2, mother haplotype = value // 2" if ok else "transmission decoding is %s" % exprs)
     wr = ctx.func(PH + ".write_recombination_list")
     ok = False
